@@ -553,6 +553,9 @@ func newSrcMode(o *opts) *srcMode {
 	for k, p := range escapePrograms() {
 		m.fixed = append(m.fixed, srcCase{Cat: "escape", Recipe: fmt.Sprintf("escapePrograms()[%d]: *args / **kwargs values used after the caller went on evaluating", k), Src: p})
 	}
+	for k, p := range aliasPrograms() {
+		m.fixed = append(m.fixed, srcCase{Cat: "alias", Recipe: fmt.Sprintf("aliasPrograms()[%d]: the same object as receiver and argument / both operands: %s", k, strings.ReplaceAll(p, "\n", "; ")), Src: p})
+	}
 	for k, p := range callShapePrograms() {
 		m.fixed = append(m.fixed, srcCase{Cat: "callshape", Recipe: fmt.Sprintf("callShapePrograms()[%d]: %s", k, strings.SplitN(p[len(callPrelude):], "\n", 2)[0]), Src: p})
 	}
